@@ -32,6 +32,11 @@ CLAIMED['C34'] = ("inductive step of MySQLSequence.NextSeq from an arbitrary cac
 CLAIMED['C08'] = ("mycat_mod (every int64, counts 1..16), mycat_long (every int64, 6 layouts), mycat_string (keys of <=3 symbolic code points of any plane, all hashSlice forms with bounds -3..3) and the mycat_murmur hash function (every int32 seed, <=3 code points) equal independent transcriptions of Mycat's Java algorithms (BigInteger abs/mod, UTF-16 String.length/charAt, Guava murmur3_32 hashUnencodedChars)",
     "the Mycat side is a transcription written for this check (validated on the vectors of shard_mycat_test.go by the repo's own tests), not Mycat itself; the murmur consistent-hash ring lookup (treemap ceiling over the virtual buckets) and mycat_padding_mod are not covered")
 
+CLAIMED['C27'] = ("one probe round of a fused replica under the hard and the gradual policy, and one TryFuse event, from an arbitrary state: symbolic clock, cool-down, time since the latest fuse/recovery and remaining penalty; enumerated probe outcome, master status, replication row: the replica is restored only by a successful probe after the cool-down (hard) / with no penalty left (gradual), the cool-down counts from the latest fuse, the penalty grows iff the fuse came within 2 ping periods of the last recovery",
+    "time.Now is a harness clock (engine stub, mockey natively); pools and connections are fakes; one event from an arbitrary state (inductive), not event histories; failed-recovery count 3..16; the breaker window itself is C26")
+CLAIMED['C28'] = ("one probe round of a replica without strategy from an arbitrary state (symbolic clock, time since last successful probe, down-after period, lag and limit; enumerated probe outcome, master status, thread states, row/no row/no privilege): the resulting status equals the reference table of the property; the health probe and the down-after test shared with the master round are checked separately",
+    "the master's own round lives inside checkBackendMasterStatus's ticker loop and is covered only through the shared steps (GetPooledConnectWithHealthCheck, ShouldDownAfterNoAlive); health SQL empty (ping + select 1 path); known finding C28-replica-up-without-probe-when-master-down")
+
 NA_REASON = "check not built yet (work in progress; see DESIGN.md section 3 for the planned harness)"
 NA = {}
 
